@@ -132,8 +132,11 @@ def run(ctx):
             ok_fix = ok_fix and any(core(n.child("r")).get("k") == "int" and core(n.child("r"))["v"] != 0 for n in fix)
     r.check(ok_err, "getInfoForPath|error-returns-zero-record", "", "stat failure does not return the zeroed record", f)
     r.check(ok_fix, "getInfoForPath|sentinel-fixup", "", "an existing object can be returned as the all-zero record", f)
-    sel = [n for n in f.nodes if n.get("k") == "cond" and expr_str(core(n.child("c"))) == "asLink"]
-    ok = len(sel) == 1 and "lstat" in expr_str(sel[0].child("a")) and "lstat" not in expr_str(sel[0].child("b")) and "stat" in expr_str(sel[0].child("b"))
+    # fact-based (ternary or if/else alike): lstat is reached exactly when asLink holds, stat exactly when it does not
+    ls_ = [c for c in f.calls() if c.get("k") == "call" and (c.get("fn") or "").split("::")[-1] == "lstat"]
+    st_ = [c for c in f.calls() if c.get("k") == "call" and (c.get("fn") or "").split("::")[-1] == "stat"]
+    ok = len(ls_) == 1 and len(st_) == 1 and ("asLink", True) in (bf.at_node(ls_[0]) or frozenset()) and ("asLink", False) in (bf.at_node(st_[0]) or frozenset()) and \
+        expr_plain(arg_nodes(ls_[0])[0]) == expr_plain(arg_nodes(st_[0])[0]) == "path.c_str()"
     r.check(ok, "getInfoForPath|lstat-for-links", "", "asLink does not select lstat", f)
     # the missing test looks at the fields the fix-up relies on
     g = prog.fn("llbuild::basic::FileInfo::isMissing")
